@@ -43,10 +43,10 @@ var tamperNames = [...]string{"payload-byte", "log-id", "next-add", "next-drop",
 	"version", "clock-id", "clock-time", "key-substituted", "sig-substituted", "sig-bitflip", "unsigned", "key-removed", "foreign-log-id"}
 
 type tamperResult struct {
-	e        iface.IPFSLogEntry
-	kind     int
-	applied  bool
-	detail   string
+	e         iface.IPFSLogEntry
+	kind      int
+	applied   bool
+	detail    string
 	invisible bool // payload change that the signed JSON cannot see (invalid UTF-8 -> U+FFFD)
 }
 
